@@ -1,7 +1,7 @@
 """C17 — block sync delivers a gap-free ascending chain from a true common ancestor.
 spec/sync/Syncer.tla; binding: TLC behaviours (every transition of a small instance + simulated behaviours of
 larger ones) replayed message by message on the real syncer.Syncer (harness/syncer)."""
-import json, os, random, re, shutil, threading, time
+import json, os, random, re, shutil, subprocess, threading, time
 from collections import deque
 import vlib
 
@@ -29,6 +29,54 @@ MANIFEST = dict(
               "counterexamples into the real syncer; seeded end-to-end driver with the property predicates")
 SPEC_DIR = os.path.join(vlib.SPEC, "sync")
 LOCK = threading.Lock()      # Check objects are filled from several threads
+
+
+class TestBin:
+    """One `go test -c` of a package of the CURRENT tree through the overlay per run of the check; the binary is run several
+    times with different inputs (vlib.go_test would rebuild and relink it for every call)."""
+
+    def __init__(self, c, pkg):
+        self.c, self.pkg, self.exe, self.lock = c, pkg, None, threading.Lock()
+
+    def build(self):
+        with self.lock:
+            if self.exe:
+                return
+            ov = vlib.gen_overlay()
+            d = os.path.join(self.c.work, "gobin")
+            os.makedirs(d, exist_ok=True)
+            exe = os.path.join(d, "c17-%s.test" % self.pkg.strip("./").replace("/", "_"))
+            cmd = ["go", "test", "-c", "-tags", "verif", "-overlay", ov, "-vet=off", "-o", exe, self.pkg]
+            try:
+                r = subprocess.run(cmd, cwd=vlib.REPO, env=vlib.goenv(), capture_output=True, text=True, timeout=1800)
+            except subprocess.TimeoutExpired:
+                raise vlib.Infra("go test -c timed out: " + " ".join(cmd))
+            if r.returncode != 0 or not os.path.exists(exe):
+                raise vlib.Infra("harness does not build (%s):\n%s" % (self.pkg, (r.stdout + r.stderr)[-4000:]))
+            self.exe = exe
+
+    def run(self, run, env, timeout=1800, cwd=None, tag="x"):
+        self.build()
+        cwd = cwd or os.path.join(self.c.work, "gobin", "cwd-" + tag)
+        os.makedirs(cwd, exist_ok=True)
+        e = dict(env)
+        e.setdefault("TMPDIR", cwd)
+        try:
+            r = subprocess.run([self.exe, "-test.run", run, "-test.timeout", "%ds" % timeout, "-test.count", "1"], cwd=cwd,
+                               env=vlib.goenv(e), capture_output=True, text=True, timeout=timeout + 60)
+        except subprocess.TimeoutExpired:
+            raise vlib.Infra("harness timed out: %s %s" % (self.pkg, run))
+        return r.returncode, r.stdout + r.stderr
+
+
+BINS = {}
+
+
+def test_bin(c, pkg):
+    with LOCK:
+        if (id(c), pkg) not in BINS:
+            BINS[(id(c), pkg)] = TestBin(c, pkg)
+        return BINS[(id(c), pkg)]
 
 
 def req_ok(c, res, what):
@@ -256,12 +304,12 @@ def cfg_params(cfgname):
 
 def run_harness(c, params, behaviours, tag, par=24, timeout=3000):
     vlib.log("[c17] replaying %d behaviours (%s) t=%.0fs" % (len(behaviours), tag, time.time() - c.t0))
-    inp = dict(params=params, behaviours=behaviours, par=par, restart_every=1 if c.tier == "thorough" else 4)
+    inp = dict(params=params, behaviours=behaviours, par=par, restart_every=1 if c.tier == "thorough" else 2)
     inpath = os.path.join(c.work, "syncer_in_%s.json" % tag)
     json.dump(inp, open(inpath, "w"))
     outpath = os.path.join(c.work, "syncer_out_%s.json" % tag)
-    rc, output = vlib.go_test("./syncer/", "^TestVerifSyncer$", env={"VERIF_IN": inpath, "VERIF_OUT": outpath,
-                              "VERIF_SEED": c.seed, "VERIF_TIER": c.tier}, timeout=timeout)
+    rc, output = test_bin(c, "./syncer/").run("^TestVerifSyncer$", {"VERIF_IN": inpath, "VERIF_OUT": outpath,
+                                              "VERIF_SEED": c.seed, "VERIF_TIER": c.tier}, timeout=timeout, tag=tag)
     r = absorb(c, outpath, output)
     if rc != 0 and not r.get("violations"):
         raise vlib.Infra("harness failed:\n" + output[-3000:])
@@ -308,8 +356,8 @@ def run_e2e(c, scenarios):
     inpath = os.path.join(c.work, "syncer_e2e_in.json")
     json.dump(dict(scenarios=scenarios), open(inpath, "w"))
     outpath = os.path.join(c.work, "syncer_e2e_out.json")
-    rc, output = vlib.go_test("./syncer/", "^TestVerifSyncerE2E$", env={"VERIF_IN": inpath, "VERIF_OUT": outpath,
-                              "VERIF_SEED": c.seed, "VERIF_TIER": c.tier}, timeout=3000)
+    rc, output = test_bin(c, "./syncer/").run("^TestVerifSyncerE2E$", {"VERIF_IN": inpath, "VERIF_OUT": outpath,
+                                              "VERIF_SEED": c.seed, "VERIF_TIER": c.tier}, timeout=3000, tag="e2e")
     r = absorb(c, outpath, output)
     if rc != 0 and not r.get("violations"):
         raise vlib.Infra("e2e harness failed:\n" + output[-3000:])
@@ -362,8 +410,8 @@ def race_replays(c, hunted):
     inpath = os.path.join(c.work, "syncer_in_race.json")
     json.dump(dict(params=params, behaviours=bs, par=2, restart_every=1), open(inpath, "w"))
     outpath = os.path.join(c.work, "syncer_out_race.json")
-    rc, output = vlib.go_test("./syncer/", "^TestVerifSyncer$", env={"VERIF_IN": inpath, "VERIF_OUT": outpath,
-                              "VERIF_SEED": c.seed, "VERIF_TIER": c.tier}, timeout=600)
+    rc, output = test_bin(c, "./syncer/").run("^TestVerifSyncer$", {"VERIF_IN": inpath, "VERIF_OUT": outpath,
+                                              "VERIF_SEED": c.seed, "VERIF_TIER": c.tier}, timeout=600, tag="race")
     if not os.path.exists(outpath):
         raise vlib.Infra("race replay wrote no result:\n" + output[-3000:])
     r = json.load(open(outpath))
@@ -433,8 +481,8 @@ def recv_check(c):
         os.makedirs(os.path.join(rt, "test"), exist_ok=True)
         if not os.path.isdir(os.path.join(rt, "test", "sample")):
             shutil.copytree(os.path.join(vlib.REPO, "p2p", "test", "sample"), os.path.join(rt, "test", "sample"))
-        rc, output = vlib.go_test("./p2p/", "^TestVerifSyncRecv$", env={"VERIF_IN": inpath, "VERIF_OUT": outpath,
-                                  "VERIF_SEED": c.seed, "VERIF_TIER": c.tier}, timeout=1500, cwd=rt)
+        rc, output = test_bin(c, "./p2p/").run("^TestVerifSyncRecv$", {"VERIF_IN": inpath, "VERIF_OUT": outpath,
+                                               "VERIF_SEED": c.seed, "VERIF_TIER": c.tier}, timeout=1500, cwd=rt)
         r = absorb(c, outpath, output)
         if rc != 0 and not r.get("violations"):
             raise vlib.Infra("receiver harness failed:\n" + output[-3000:])
@@ -493,28 +541,47 @@ def run(c):
         except Exception as e:
             errors.append(e)
 
+    # the three behaviour sources are generated concurrently (TLC start-up dominates), the test binary is built meanwhile
+    gcfg = "Gen_Syncer.cfg"
+    ocfg = "Gen_Syncer_order1.cfg" if thorough else "Gen_Syncer_order.cfg"
+    gens = {}
+
+    def gen_thread(key, fn):
+        try:
+            gens[key] = fn()
+        except Exception as e:
+            gens[key] = e
+    gths = [threading.Thread(target=gen_thread, args=("g", lambda: graph_behaviours(c, gcfg, random.Random(c.seed), "g", 5000))),
+            threading.Thread(target=gen_thread, args=("o", lambda: graph_behaviours(c, ocfg, random.Random(c.seed + 1), "o", 1500))),
+            threading.Thread(target=gen_thread, args=("s", lambda: simulate(c, "Sim_Syncer.cfg", 750 if thorough else 30, 60, "sim")))]
+
+    def get(key, th):
+        th.join()
+        if isinstance(gens[key], Exception):
+            raise gens[key]
+        return gens[key]
     ths = [threading.Thread(target=mc_thread), threading.Thread(target=aux_thread)]
-    for th in ths:
+    for th in gths + ths:
         th.start()
     try:
+        test_bin(c, "./syncer/").build()
         # C. every transition of two small instances, as edge covers of paths from the initial states
-        bs, n1 = graph_behaviours(c, "Gen_Syncer.cfg", rng, "g", 5000)
-        run_harness(c, cfg_params("Gen_Syncer.cfg"), bs, "gen")
-        note = "all %d transitions of Gen_Syncer.cfg (one session, light+full scan, <=1 fault, stop request) in %d paths" % (n1, len(bs))
+        bs, n1 = get("g", gths[0])
+        run_harness(c, cfg_params(gcfg), bs, "gen", par=40)
+        note = "all %d transitions of %s (one session, light+full scan, <=1 fault%s) in %d paths" % (n1, gcfg, ", stop request", len(bs))
         if not c.violations:
-            ocfg = "Gen_Syncer_order1.cfg" if thorough else "Gen_Syncer_order.cfg"
-            bs, n2 = graph_behaviours(c, ocfg, rng, "o", 1500)
-            run_harness(c, cfg_params(ocfg), bs, "ord")
+            bs, n2 = get("o", gths[1])
+            run_harness(c, cfg_params(ocfg), bs, "ord", par=40)
             note += "; all %d transitions of %s (every response order over two hash sets, 3 peers) in %d paths" % (n2, ocfg, len(bs))
         c.exhaustive = True
         c.extra["exhaustive_note"] = ("exhaustive over the generation instances: " + note + "; all transitions of the two receiver "
                                       "instances; simulated behaviours and e2e scenarios are sampled")
         # D. simulated behaviours of a larger instance (two sessions, 3 peers, <=4 faults)
         if not c.violations:
-            bs2 = simulate(c, "Sim_Syncer.cfg", 750 if thorough else 30, 60, "sim")
-            run_harness(c, cfg_params("Sim_Syncer.cfg"), bs2, "sim")
+            bs2 = get("s", gths[2])
+            run_harness(c, cfg_params("Sim_Syncer.cfg"), bs2, "sim", par=40)
     finally:
-        for th in ths:
+        for th in gths + ths:
             th.join()
     for e in errors:
         if isinstance(e, vlib.Infra) and c.violations:
